@@ -41,6 +41,7 @@ import (
 	"github.com/KafScale/platform/pkg/protocol"
 	"github.com/aws/aws-sdk-go-v2/aws"
 	"github.com/aws/aws-sdk-go-v2/service/s3"
+	"github.com/aws/smithy-go"
 	"github.com/twmb/franz-go/pkg/kmsg"
 )
 
@@ -208,6 +209,12 @@ func (f *c32S3) waitGate() {
 	}
 }
 
+// c32APIErr is what the AWS SDK hands back for an S3 error response: a smithy.APIError with
+// the S3 error code, so that error classification inside lfs_s3.go sees the real thing.
+func c32APIErr(code, msg string) error {
+	return &smithy.GenericAPIError{Code: code, Message: msg, Fault: smithy.FaultClient}
+}
+
 func newC32S3() *c32S3 {
 	return &c32S3{objects: map[string][]byte{}, uploads: map[string]*c32Upload{}}
 }
@@ -256,7 +263,7 @@ func (f *c32S3) UploadPart(ctx context.Context, p *s3.UploadPartInput, _ ...func
 	}
 	up, ok := f.uploads[*p.UploadId]
 	if !ok {
-		return nil, errors.New("NoSuchUpload")
+		return nil, c32APIErr("NoSuchUpload", "The specified upload does not exist. The upload ID may be invalid, or the upload may have been aborted or completed.")
 	}
 	data, _ := io.ReadAll(p.Body)
 	id := int64(-1)
@@ -277,21 +284,24 @@ func (f *c32S3) CompleteMultipartUpload(ctx context.Context, p *s3.CompleteMulti
 	}
 	up, ok := f.uploads[*p.UploadId]
 	if !ok {
-		return nil, errors.New("NoSuchUpload")
+		return nil, c32APIErr("NoSuchUpload", "The specified upload does not exist. The upload ID may be invalid, or the upload may have been aborted or completed.")
 	}
 	var obj []byte
 	prev := int32(0)
 	if p.MultipartUpload == nil || len(p.MultipartUpload.Parts) == 0 {
-		return nil, errors.New("MalformedXML")
+		return nil, c32APIErr("MalformedXML", "The XML you provided was not well-formed")
 	}
-	for _, cp := range p.MultipartUpload.Parts {
+	for i, cp := range p.MultipartUpload.Parts {
 		if cp.PartNumber == nil || *cp.PartNumber <= prev {
-			return nil, errors.New("InvalidPartOrder")
+			return nil, c32APIErr("InvalidPartOrder", "The list of parts was not in ascending order.")
 		}
 		prev = *cp.PartNumber
 		data, ok := up.parts[*cp.PartNumber]
 		if !ok || cp.ETag == nil || *cp.ETag != up.etags[*cp.PartNumber] {
-			return nil, errors.New("InvalidPart")
+			return nil, c32APIErr("InvalidPart", "One or more of the specified parts could not be found.")
+		}
+		if i < len(p.MultipartUpload.Parts)-1 && len(data) < 5*c32MiB {
+			return nil, c32APIErr("EntityTooSmall", "Your proposed upload is smaller than the minimum allowed object size.")
 		}
 		obj = append(obj, data...)
 	}
@@ -300,10 +310,11 @@ func (f *c32S3) CompleteMultipartUpload(ctx context.Context, p *s3.CompleteMulti
 	return &s3.CompleteMultipartUploadOutput{}, nil
 }
 func (f *c32S3) AbortMultipartUpload(ctx context.Context, p *s3.AbortMultipartUploadInput, _ ...func(*s3.Options)) (*s3.AbortMultipartUploadOutput, error) {
+	f.waitGate()
 	f.mu.Lock()
 	defer f.mu.Unlock()
 	if _, ok := f.uploads[*p.UploadId]; !ok {
-		return nil, errors.New("NoSuchUpload")
+		return nil, c32APIErr("NoSuchUpload", "The specified upload does not exist.")
 	}
 	delete(f.uploads, *p.UploadId)
 	return &s3.AbortMultipartUploadOutput{}, nil
@@ -324,7 +335,7 @@ func (f *c32S3) GetObject(ctx context.Context, p *s3.GetObjectInput, _ ...func(*
 	defer f.mu.Unlock()
 	data, ok := f.objects[*p.Key]
 	if !ok {
-		return nil, errors.New("NoSuchKey")
+		return nil, c32APIErr("NoSuchKey", "The specified key does not exist.")
 	}
 	n := int64(len(data))
 	return &s3.GetObjectOutput{Body: io.NopCloser(bytes.NewReader(data)), ContentLength: &n}, nil
@@ -440,6 +451,7 @@ func (b *c32Broker) serve(conn net.Conn) {
 
 // ---------- running a case ----------
 type c32Resp struct {
+	s3cls   int // class of the S3 error echoed by a 502 of a part / complete request
 	status  int
 	hasEnv  bool
 	keyID   int64
@@ -521,6 +533,7 @@ func c32Run(t *testing.T, cs c32Case, br *c32Broker, deadAddr string) c32Obs {
 	etags := map[int32]string{}
 	var uploadedOK, validated []c32Chunk // parts acknowledged with 200 (new) / bodies that reached S3
 	obs.listedIDs = map[int][]int64{}
+	var accepted []lfs.Envelope // envelopes returned with status 200
 
 	// prepare sets the fakes for a request and returns what absorb needs later
 	prepare := func(ev c32Ev) (string, int) {
@@ -623,12 +636,25 @@ func c32Run(t *testing.T, cs c32Case, br *c32Broker, deadAddr string) c32Obs {
 			candidates = append(candidates, uploadedOK, validated)
 		}
 		r := c32Resp{status: rr.Code}
+		if rr.Code == 502 && (ev.Kind == "part" || ev.Kind == "complete") {
+			var e lfsErrorResponse
+			_ = json.Unmarshal(rr.Body.Bytes(), &e)
+			switch {
+			case strings.Contains(e.Message, "NoSuchUpload"):
+				r.s3cls = 1
+			case strings.Contains(e.Message, "InvalidPart"), strings.Contains(e.Message, "EntityTooSmall"), strings.Contains(e.Message, "MalformedXML"):
+				r.s3cls = 2
+			case strings.Contains(e.Message, "verif: injected"):
+				r.s3cls = 5
+			}
+		}
 		if rr.Code == 200 && (ev.Kind == "produce" || ev.Kind == "complete") {
 			var env lfs.Envelope
 			if err := json.Unmarshal(rr.Body.Bytes(), &env); err != nil || env.Key == "" {
 				setFail("no-envelope", fmt.Sprintf("event %d: status 200 without an envelope: %s", i, rr.Body.String()))
 			} else {
 				r.hasEnv, r.keyID, r.size = true, fs3.keyID(env.Key), env.Size
+				accepted = append(accepted, env)
 				obj, present := fs3.objects[env.Key]
 				if present {
 					if bl, ok := c32ParseBlob(obj); ok {
@@ -780,6 +806,17 @@ func c32Run(t *testing.T, cs c32Case, br *c32Broker, deadAddr string) c32Obs {
 		}
 		i++
 	}
+	// every envelope handed out with 200 must name an object of the S3 fake's FINAL object map
+	// (not what the uploader reported): it exists, and its size and SHA-256 are the envelope's
+	for _, env := range accepted {
+		obj, ok := fs3.objects[env.Key]
+		sum := sha256.Sum256(obj)
+		if !ok {
+			setFail("object-missing", fmt.Sprintf("envelope %s was returned with 200 but no such object exists in S3 at the end", env.Key))
+		} else if int64(len(obj)) != env.Size || hex.EncodeToString(sum[:]) != env.SHA256 {
+			setFail("object-mismatch", fmt.Sprintf("envelope %s (size %d) was returned with 200 but the object in S3 at the end has size %d / another SHA-256", env.Key, env.Size, len(obj)))
+		}
+	}
 	keys := make([]string, 0, len(fs3.objects))
 	for k := range fs3.objects {
 		keys = append(keys, k)
@@ -856,7 +893,7 @@ func c32CoqResp(r c32Resp) string {
 		}
 		env = fmt.Sprintf("(Some (mkEnv %s %s %s %s))", cqZ(r.keyID), cqZ(r.size), sha, sum)
 	}
-	return fmt.Sprintf("mkResp %d %s", r.status, env)
+	return fmt.Sprintf("mkResp %d %s %d", r.status, env, r.s3cls)
 }
 
 func c32Coq(cs c32Case, obs c32Obs) string {
@@ -1106,6 +1143,19 @@ func (g *c32Gen) session() []c32Ev {
 				}
 				continue
 			}
+			if ev.Kind == "abort" && g.r.Chance(50) {
+				ev.Overlap = true
+				out = append(out, ev)
+				switch g.r.Intn(3) {
+				case 0:
+					out = append(out, c32Ev{Kind: "complete", Listed: exact(), Reply: g.reply()})
+				case 1:
+					out = append(out, c32Ev{Kind: "part", N: int32(len(plan)), Body: plan[len(plan)-1]})
+				case 2:
+					out = append(out, c32Ev{Kind: "abort"})
+				}
+				continue
+			}
 			if len(ev.Faults) == 0 && ev.Kind == "complete" && g.r.Chance(25) {
 				ev.Overlap = true
 				ev.ExpireDuring = g.r.Chance(15)
@@ -1236,6 +1286,37 @@ func TestVerifC32(t *testing.T) {
 			{Events: []c32Ev{{Kind: "init", Size: 100}, {Kind: "part", N: 1, Body: p3, Overlap: true, ExpireDuring: true}, {Kind: "complete", Listed: []c32Listed{{N: 1, Etag: "ok"}}}, {Kind: "abort"}}},
 			// well-behaved client
 			{Events: []c32Ev{{Kind: "init", Size: 5*c32MiB + 300, Csum: c32Csum{Kind: "blob", Blob: []c32Chunk{p1, p2}}}, {Kind: "part", N: 1, Body: p1}, {Kind: "part", N: 2, Body: p2}, {Kind: "complete", Listed: []c32Listed{{N: 1, Etag: "ok"}, {N: 2, Etag: "ok"}}}}},
+		}
+		// every ordered overlap pair of {Part, Complete, Abort} on a session in each of the states
+		// "no part yet", "all parts uploaded", "S3 completed but broker failed" (so the pair also
+		// covers Complete-retry / Abort-retry), followed by operations on the finished session
+		q := c32Chunk{ID: 21, Len: 100}
+		one := []c32Listed{{N: 1, Etag: "ok"}}
+		mk := func(kind string) c32Ev {
+			switch kind {
+			case "part":
+				return c32Ev{Kind: "part", N: 1, Body: q}
+			case "complete":
+				return c32Ev{Kind: "complete", Listed: one}
+			}
+			return c32Ev{Kind: "abort"}
+		}
+		prefixes := [][]c32Ev{
+			{{Kind: "init", Size: 100}},
+			{{Kind: "init", Size: 100}, {Kind: "part", N: 1, Body: q}},
+			{{Kind: "init", Size: 100}, {Kind: "part", N: 1, Body: q}, {Kind: "complete", Listed: one, Reply: "code:7"}},
+			{{Kind: "init", Size: 100}, {Kind: "part", N: 1, Body: q}, {Kind: "complete", Listed: one, Reply: "transport"}, {Kind: "complete", Listed: one, Reply: "code:3"}},
+		}
+		for _, pre := range prefixes {
+			for _, a := range []string{"part", "complete", "abort"} {
+				for _, b := range []string{"part", "complete", "abort"} {
+					evs := append([]c32Ev(nil), pre...)
+					ea := mk(a)
+					ea.Overlap = true
+					evs = append(evs, ea, mk(b), mk("complete"), mk("part"), mk("abort"), mk("abort"), mk("complete"))
+					corpus = append(corpus, c32Case{Events: evs})
+				}
+			}
 		}
 		for _, cs := range corpus {
 			runOne(cs)
